@@ -290,7 +290,7 @@ pub fn run(tier: &str) -> Result<Report, String> {
                     }
                     let env = match Env::new(&b) {
                         Ok(e) => e,
-                        Err(_) => return None,
+                        Err(e) => return Some(Violation { case: json!({"kind": "machinery"}), what: format!("MACHINERY: cannot build the graphs of the second network: {e}"), size: 0 }),
                     };
                     for t in ftexts {
                         let f = crate::formulas::f(t, &env.ctxs[0].user);
